@@ -112,6 +112,9 @@ func c01(r *rng, tier string, o *out) {
 		for _, v := range viol {
 			o.violation(idx, v)
 		}
+		if tag == "out-of-domain" || line == "parent 0" {
+			o.outside(idx, "zoom above 31, coordinate outside the zoom's grid, ID at or beyond zoom 32, or the parent of the root")
+		}
 	}
 	coord := func(z, x, y uint64, tag string) {
 		emit(fmt.Sprintf("zxy2id %d %d %d", z, x, y), z >= 2, tag)
